@@ -124,7 +124,7 @@ fn check_enum(rep: &mut Report, name: &str, base: &str, family: &[&str], c: &str
     }
     // (C) in a message position: MessageParser::parse_variant_field / parse_optional_variant_field, against the Lean model with
     // the enum's verdict as a sidecar
-    for l in ["", "A", "C", "F", "K", "Z"] {
+    for l in ["", "A", "B", "C", "D", "F", "G", "H", "K", "L", "P", "Z"] {
         if !c.is_ascii() { continue; }
         let text = format!(":{base}{l}:{c}\n:99:NEXT\n-");
         let letter = if l.is_empty() { None } else { Some(l) };
@@ -145,6 +145,11 @@ fn check_enum(rep: &mut Report, name: &str, base: &str, family: &[&str], c: &str
             }).unwrap_or("panic".into());
             // content extraction may trim differently from `c` only for trailing CR/LF, which pool contents do not have
             rep.model(format!("pvw {} {} {} {}", opt as u8, h(&text), h(base), side), out.clone());
+            // oracle: the letter written in the message decides — what the family's parser accepts under that letter is accepted in
+            // the message position (a lettered tag the position reader does not recognise shows up here)
+            if side != "~" && family.contains(&l) && !out.starts_with("ok") && !c.contains("\n:") && !c.contains("\n-") && !c.starts_with(':') {
+                rep.fail(&format!("letter_not_read|{name}|message-position:{}", if l.is_empty() { "-" } else { l }), wit("content the family accepts under this letter is not read in a message position", json!({"tag": format!("{base}{l}"), "outcome": out})));
+            }
             // oracle: accepted in a message ⇒ written back under the tag that was read
             if out.starts_with("ok") {
                 let emitted = match with_enum!(name, E => pwv::<E>(c, letter, base)) { Ok(Some((t, _, _))) => t, _ => "?".into() };
@@ -172,6 +177,8 @@ pub fn run(o: &Opts) -> Report {
     let ambiguous = ["CHASUS33", "DEUTDEFFXXX", "/12345678", "/12345678\nCHASUS33", "/12345678\nJOHN DOE", "1/JOHN DOE\n2/MAIN ST", "/12345678\n1/JOHN DOE", "JOHN DOE", "JOHN DOE\nMAIN ST",
         "/C/12345678\nCHASUS33", "//FW021000021", "/FW021000021", "12345678\nCHASUS33", "PARTYID", "240315USD1000,00", "USD1000,00", "C240315USD1000,00", "", "/ACCOUNT\nBANKDEFF\nEXTRA", "ABCDEFGH12345678CHASUS33",
         // blank-padded look-alikes: a blank is a character of 35x contents but not of a BIC or an account line
+        // a first line shaped like a BIC followed by name lines / a second BIC; one-line names that look like an account
+        "ACMECORP\n12 HIGH STREET\nLONDON", "DEUTDEFF\nCHASUS33", "DEUTDEFFXXX\nMAIN STREET 1", "BANK24", "HSBC1865", "BANK24\nLONDON", "NEW YORK\nUSA",
         "DEUTDEFF ", " CHASUS33XXX", "CHASUS33  ", " /12345678", "/12345678 \nCHASUS33", "JOHN DOE ", " JOHN DOE", "DEUTDEFF\t"];
     for (name, base, family) in ENUMS {
         let mut contents: Vec<(String, String)> = Vec::new();
@@ -183,6 +190,25 @@ pub fn run(o: &Opts) -> Report {
             }
         }
         for a in ambiguous { contents.push((a.to_string(), "ambiguous".into())); }
+        // splices of two members' contents: the first line of one option's content in front of the remaining lines of
+        // another's (contents that start like one option and continue like another)
+        {
+            let n = contents.len();
+            let mut spliced: Vec<(String, String)> = Vec::new();
+            for _ in 0..(if o.thorough() { 200 } else { 30 }) {
+                if n < 2 { break; }
+                let (a, sa) = contents[rng.below(n)].clone();
+                let (b, sb) = contents[rng.below(n)].clone();
+                if sa == sb { continue; }
+                let first = a.split('\n').next().unwrap_or("").to_string();
+                let rest: Vec<&str> = b.split('\n').skip(1).collect();
+                let c = if rest.is_empty() { format!("{first}\n{b}") } else { format!("{first}\n{}", rest.join("\n")) };
+                // (a content never ends in a line break in a message position: extraction trims it)
+                let c = c.trim_end_matches(['\n', '\r']).to_string();
+                spliced.push((c, format!("splice:{sa}+{sb}")));
+            }
+            contents.extend(spliced);
+        }
         for (c, src) in contents {
             check_enum(&mut rep, name, base, family, &c, &src);
         }
